@@ -207,6 +207,14 @@ def run(chk, repo: Repo):
     gm4 = canon_fn(repo, lm, gm, 4)
     loops = [n for n in ast.walk(gm4) if isinstance(n, ast.For)]
     problems = []
+    adj_calls = [c for c in ast.walk(gm) if isinstance(c, ast.Call) and call_name(c) in ("self.adjoint", "self._adjoint_func")]
+    if adj_calls:
+        # the matrix of the forward map is assembled from the forward map: rows taken from adjoint(e_i) are the transpose of ANOTHER matrix whenever the exposed
+        # adjoint is not the exact transpose of forward (non-orthogonal expansions in the range geometry: fun2par is a projection, not par2fun transposed)
+        chk.fail("C07-R5", f"{lm.qual}.get_matrix/from-forward", site(repo, adj_calls[0]),
+                 f"`{unparse(adj_calls[0])[:60]}`: get_matrix assembles (part of) the matrix from the adjoint; get_matrix() @ x then differs from forward(x) for every "
+                 f"geometry whose fun2par is not the transpose of its par2fun", adj_calls[0])
+        return
     if len(loops) != 1:
         raise AnchorError("get_matrix: column loop not found")
     lp = loops[0]
